@@ -8,11 +8,13 @@ from ..core import HarnessError, Violation
 
 ID = "C12"
 LEVEL = "exploration"
-RULE = ("Hypothesis draws a hereditarily satisfiable SchemaSpec (depth<=3, all list forms incl. "
+RULE = ("exhaustive part: 13 targets with untyped positions (any, undeclared / relaxed dict, untyped lists, windows, alias) x 21 "
+        "values that are not plain (`...` as key or member, tuples, sets, Decimal, mappings that are not dicts ...) x 8 embeddings. "
+        "Generated part: Hypothesis draws a hereditarily satisfiable SchemaSpec (depth<=3, all list forms incl. "
         "contains-windows, relaxed dicts, any, alias) and a value: complete or partial conforming "
         "value, spec-aware near-miss, generic perturbation, extra keys added at drawn depths, a zoo "
         "object injected at a drawn position (unconvertible members inside and outside matched "
-        "windows), a value containing `...`, or junk. Oracle: substitute returns a Schema or raises "
+        "windows), a value containing `...` (as a member or as a dict key), a list written as a tuple, one container object at two positions, or junk. Oracle: substitute returns a Schema or raises "
         "SubstitutionError, nothing else; a returned schema can be generated from (scripted RNG) and "
         "accepts what it generates; for plain values (no `...`, no NaN) substituting again succeeds "
         "with identical canon and ==. distinct = canonical JSON of (spec, value); non-trivial = the "
